@@ -338,6 +338,10 @@ def run_js(ctx: Ctx):
             ctx.count("js_local_search_effect", "improved" if out["objective"] < base else ("same" if out["objective"] == base else "WORSE"))
         if case.get("cb_k") is not None:
             ctx.count("js_callback", "with on_progress")
+        if out["kind"] == "ok" and case["local_search"] and case["max_iter"] >= 1 and case["jobs"]:
+            full = out["iterations"] == case["max_iter"]
+            ctx.count("js_loop_exit", "all passes" if full else ("call-back stop" if case.get("cb_k") is not None and case["interval"] > 0
+                                                                 else "no_improve >= 100"))
         bad = oracle(case, out)
         if bad:
             small = shrink(case, _fails) if len(ctx.violations) < 3 else case
